@@ -151,7 +151,7 @@ class Engine:
         info['configs'] += 1
         state = st.State()
         state.guards = []
-        params = contract.params(fr.config) if callable(contract.params) else contract.params
+        params = contract.param_list(fr.config)
         real = extract.param_names(fn)
         names = [p[0] for p in params]
         if names != real:
@@ -543,7 +543,7 @@ class Engine:
             except Unsupported:
                 callee = None
         if callee is not None and callee.modifies:
-            params = callee.params(fr.config) if callable(callee.params) else callee.params
+            params = callee.param_list(fr.config)
             pnames = [p[0] for p in params]
             args = list(n.args)
             if isinstance(f, ast.Attribute) and pnames and pnames[0] == 'self':
@@ -1145,7 +1145,7 @@ class Engine:
     # ------------------------------------------------------------------ calls to functions under contract
 
     def call_contract(self, callee, args, s, fr, lineno):
-        params = callee.params(fr.config) if callable(callee.params) else callee.params
+        params = callee.param_list(fr.config)
         if len(args) != len(params):
             raise Unsupported(f"call to {callee.simple_name}: {len(args)} arguments for {len(params)} parameters")
         vals = {p[0]: a for p, a in zip(params, args)}
